@@ -3,6 +3,7 @@ package main
 import (
 	"IG-Parser/core/tree"
 	"encoding/json"
+	"igpverif/sx"
 	"strconv"
 )
 
@@ -49,6 +50,29 @@ func handleFn(r *Req) Resp {
 			refs = []string{}
 		}
 		return Resp{"refs": refs}
+	case "link":
+		// args: {"tree": node, "p": "010", "q": "11"}: FindLogicalLinkage between two nodes of a built tree
+		var a struct {
+			Tree string `json:"tree"`
+			P    string `json:"p"`
+			Q    string `json:"q"`
+		}
+		if err := json.Unmarshal(r.Args, &a); err != nil {
+			return Resp{"bad": err.Error()}
+		}
+		root, e := sx.ParseNode(a.Tree)
+		if e != nil {
+			return Resp{"bad": e.Error()}
+		}
+		p, q := sx.NodeAt(root, a.P), sx.NodeAt(root, a.Q)
+		if p == nil || q == nil {
+			return Resp{"bad": "path outside the tree"}
+		}
+		found, ops, err := tree.FindLogicalLinkage(p, q)
+		if ops == nil {
+			ops = []string{}
+		}
+		return Resp{"found": found, "ops": ops, "err": err.ErrorCode}
 	}
 	return Resp{"bad": "unknown fn " + r.Fn}
 }
